@@ -86,12 +86,16 @@ CLAIMED = {
          "Events: submit a user READ or command on association a, add a poll (period kT), demand a poll, prompt reply, reply 1 ms before the response timeout, no reply, advance to 1 ms before / exactly the earliest deadline; depth 4-5 (5-7 thorough); keep-alive off / 4T. Monitor: at most one request outstanding per channel; user requests in submission order and ahead of polls; a poll never before completion + period (or demand) and written as soon as it is due on an idle channel; associations with waiting user requests take turns; link status requests only after the keep-alive silence; the master future is not polled at all while the clock advances to 1 ms before the earliest deadline, at most 200 times per event, and every history terminates (watchdog).",
          "Trusted: paused clock (timers fire at their exact instant), kernel poll counting. Start-up tasks are off here (C17).",
          "DESIGN.md §5 C19", True),
+ "C18": ("model_checking",
+         "exhaustive enumeration of scripted one-way delays, processing delays, clock bases, procedures and interleaved traffic on a paired simulation (real master task + real outstation task on one virtual clock), against the clock-error arithmetic",
+         "Forward / backward delay in {0,1,2,7,65535,65536} ms x processing delay in {0,1,2,7,65535} ms x master clock base {0,1,2^47, near 2^48-1} x {LAN, non-LAN, direct write} x {honest, dishonest processing delay, NEED_TIME persists}; unrelated traffic (unsolicited response, stale-sequence reply, link status request) injected at each protocol step; scripted master-side replies (unexpected objects, IIN2 error, NEED_TIME in the final reply, missing delay object) at each step. Success implies exactly one write_absolute_time whose value differs from base + virtual-now by at most d_f (LAN, direct) / |d_f - d_b| (non-LAN); failure conditions imply failure; ideal conditions imply success.",
+         "Trusted: paused clock, the driver's delivery scheduling. 2^48 clock values and delays are boundary menus. Quick restricts bases / interleavings to a subset of delays.",
+         "DESIGN.md §5 C18", True),
 }
 
 NOT_YET = {
  "C01": "designed in DESIGN §5 C01 (hostile-input sweeps + session states); check not built yet",
  "C02": "designed in DESIGN §5 C02 (paired master/outstation simulation); check not built yet",
- "C18": "designed in DESIGN §5 C18; check not built yet",
  "C20": "designed in DESIGN §5 C20; check not built yet",
 }
 
